@@ -358,7 +358,9 @@ func VerifC34_windowShrink() {
 	var g ghostC34
 	sc.flow.n = 1 << 30 // the connection window is kept out of the way (VerifC34_take / VerifC34_conn vary it)
 	g.connWin = int64(sc.flow.n)
-	sc.initialWindowSize = vrt.I32("initialWindowSize")
+	if vrt.Param("SYMINIT", 0) == 1 {
+		sc.initialWindowSize = vrt.I32("initialWindowSize")
+	} // else the default 65535 of newConnH2: only the difference to the new value matters
 	// all quantities below 2^20 in magnitude: no sum gets near 2^31 (window overflow is decided by
 	// VerifC34_flowAdd and VerifC34_conn), which keeps the solver fast
 	const bound = 1 << 20
